@@ -12,6 +12,12 @@ points and weighting): an object created with other custom weights (of the same 
 built-in weighting or other points, optionally switched built-in -> custom -> built-in, gets the case's points and
 weighting through the public setters (points then weights, weights then points, or only the one that differs)
 and is refitted with update_linreg().  Every history must equal the same specification value.
+
+calibrate cases apply a line (given, fitted, the identity) to responses built on it; the line may lie at, one ulp beside
+or anywhere within 1e-2 of the identity ("returns data unchanged" holds for the exact identity only:
+`calibrate_unchanged_iff_identity`), on data from ordinary units down to trace levels.  Session cases run several
+operations on ONE object (attributes assigned, refits incl. fewer than two usable rows, calibrate in between) against
+`Pew.Calib.run` / `finalState` ("c06.session"): every calibrate call answers for the line held at that moment.
 """
 import itertools
 import math
@@ -469,16 +475,27 @@ class C06(Prop):
             "(sampled above); every fit case is also reached through histories on one object (prior object with custom "
             "weights of the same / another length, another built-in weighting, other points, built-in -> custom -> "
             "built-in; the case's points and weighting assigned by the setters in both orders, or only the differing "
-            "one, then update_linreg()); calibrate cases: arrays of 0..3 dimensions incl. empty and NaN, gradients over decades, "
-            "identity and fitted calibrations. non-trivial = carries a NaN row, a zero level, a permutation, custom "
-            "weights, a history or a non-1-D array; distinct by canonical case hash")
+            "one, then update_linreg()); 8% of the fit cases are same-unit ladders (gradient at / next to 1, blank offset "
+            "zero or small, noise 0..1e-3) at scales 1e3..1e-12 (trace levels); calibrate cases: arrays of 0..3 dimensions "
+            "incl. empty and NaN, gradients over decades, identity and fitted calibrations, lines at / next to the identity "
+            "(gradient 1, 1 +- ulps, 1 +- 1e-15..1e-2; intercept 0, +-5e-324..1e-30, 1e-12..1e-1 of the data scale, "
+            "1e-20..1e-3; data at scales 1e3..1e-12; given to the constructor as float / int / np.float64, or fitted from a "
+            "same-unit ladder; a 7x8 grid of them on every run); sessions (6%): one object, 2..4 operations that set its "
+            "line (attributes assigned: any line / next to the identity / the identity; refitted on an ordinary ladder, a "
+            "same-unit ladder, fewer than two usable rows, no rows) with calibrate called before, between (once or twice) "
+            "and after. non-trivial = carries a NaN row, a zero level, a permutation, custom weights, a history, a "
+            "non-1-D array, a line at or next to the identity, or is a session; distinct by canonical case hash")
     trusted = [
         "np.polynomial.polynomial.polyfit(x, y, 1, w=sqrt(w)) returns the minimiser of the weighted residual sum of a "
         "full-rank system and np.cov(aweights=w) the weighted covariance matrix; the correspondence measures both "
         "against the closed forms at relative 1e-9 (column-scaled norm), loosened to the first-order perturbation bound "
         "1e-9 + 32*2^-52*(kappa + kappa^2*tan(theta)), kappa^2 = 4/rho, rho = D/(Sw*Swxx), when that is larger; cases with "
         "rho < 1e-6 or with that bound above 1e-5 are undetermined (counted, never a verdict)",
-        "float evaluation of 1/x, 1/x**2 and of (data - intercept)/gradient is within 1e-15 relative of the exact value",
+        "float evaluation of 1/x, 1/x**2 and of (data - intercept)/gradient is within 1e-15 relative of the exact value "
+        "(plus one rounding of 2^-1074 in the subnormal range)",
+        "in a session a refit on two or more usable rows stores polyfit's line: the line observed on the object is "
+        "adopted as the model's state for the following calibrate calls (the fit itself is judged by the fit cases); "
+        "assigned lines and the identity after fewer than two usable rows are compared exactly",
     ]
     assumptions = [
         "r² is compared only where the responses are not (nearly) constant: Dy/(Sw*Swyy) >= 1e-10 (DESIGN 6a)",
